@@ -1073,9 +1073,9 @@ impl Server {
                 let cmd_frame = &parts[0];
                 let command = match cmd_frame {
                     RespFrame::BulkString(Some(bytes)) => {
-                        let cmd_raw = String::from_utf8_lossy(bytes);
-                        let cmd_clean = cmd_raw.trim().to_uppercase();
-                        cmd_clean
+                        // The name is taken as it is (upper-cased), as everywhere else: a name with blanks
+                        // around it is an unknown command, not the command
+                        String::from_utf8_lossy(bytes).to_uppercase()
                     }
                     _ => {
                         return Ok(RespFrame::error("ERR invalid command format"));
